@@ -75,6 +75,16 @@ func VerifResetPools() {
 			return time.NewTimer(time.Second * 5)
 		},
 	}
+	// buffers grown by an earlier run would change how many reads a frame needs
+	buffers = &sync.Pool{
+		New: func() any {
+			b := &Buffer{
+				B: make([]byte, 0, DefaultBufferLength),
+			}
+			b.original = b.B
+			return b
+		},
+	}
 }
 
 func VerifUniqID() uint64 { return VerifUniq }
